@@ -15,7 +15,7 @@ use crate::ringn::RingN;
 use crate::rng::{Fp, Rng};
 use crate::scenario::{Ev, Knobs, Scenario, SymReq};
 use crate::segment::{cut_sizes, SegStyle};
-use crate::wire::{self, op, parse_response, status, Request};
+use crate::wire::{self, op, op_info, parse_response, status, Request};
 use serde_json::{json, Value};
 
 pub struct C10;
@@ -323,6 +323,81 @@ fn run_byzantine(knobs: &Knobs, stream: &[u8], cuts: &[usize], keys: &[Vec<u8>],
     (viols, out)
 }
 
+/// "The memory buffered for a connection never exceeds the item size limit plus a small
+/// constant, whatever lengths a header announces": a header announcing `body` > limit bytes
+/// whose body really arrives, `chunk` bytes at a time, on the whole server (ring N: the real
+/// connection, decoder and skip path). Everything the server allocates happens on this
+/// thread; the stream itself is allocated before the measurement starts.
+fn run_streamed_oversized(limit: u32, body: usize, chunk: usize, opcode: u8, seed: u64) -> (Vec<Violation>, Outcome) {
+    let mut out = Outcome::default();
+    let mut viols = Vec::new();
+    let mut knobs = Knobs::default_for(seed);
+    knobs.item_limit = limit;
+    knobs.conn_limit = 4;
+    knobs.timeout_secs = 60;
+    let mut r = Request::new(opcode);
+    r.opaque = 0x0b16_0001;
+    r.key = b"big".to_vec();
+    if matches!(op_info(opcode).kind, crate::wire::Kind::Set | crate::wire::Kind::Add | crate::wire::Kind::Replace) {
+        r.extras = vec![0; 8];
+    }
+    r.value = vec![0x42; body.saturating_sub(r.extras.len() + r.key.len())];
+    let mut bytes = r.encode();
+    let mut n = Request::bare(op::NOOP);
+    n.opaque = 0x0b16_0002;
+    bytes.extend_from_slice(&n.encode());
+    let mut fp = Fp::new();
+    let peak;
+    {
+        let mut ring = RingN::new(&knobs);
+        ring.connect(0);
+        // warm up: one ordinary request, so that lazily created buffers exist already
+        ring.deliver(0, &Request::bare(op::NOOP).encode());
+        let _ = ring.take_output(0);
+        let base = alloc::reset();
+        let mut got = Vec::new();
+        for piece in bytes.chunks(chunk.max(1)) {
+            ring.deliver(0, piece);
+            got.extend(ring.take_output(0));
+        }
+        peak = alloc::window(base).0;
+        for p in ring.take_panics() {
+            viols.push(Violation::new("C10", "panic", format!("panic inside the server: {}", p)));
+        }
+        fp.bytes(&got);
+        // the oversized request is refused and the noop behind it answered
+        let mut rest = &got[..];
+        let mut statuses = Vec::new();
+        while let Ok(Some((resp, used))) = parse_response(rest) {
+            statuses.push((resp.opcode, resp.status));
+            rest = &rest[used..];
+        }
+        if statuses != vec![(opcode, status::TOO_LARGE), (op::NOOP, status::OK)] && !ring.conn_state(0).server_closed {
+            *out.out_of_scope.entry("C13:oversized-stream-not-refused-and-skipped".to_string()).or_insert(0) += 1;
+        }
+    }
+    // limit + the 4 KiB initial buffer + chunks in the simulated socket + the constant the skip
+    // path costs (its 64 KiB scratch buffer, held twice for a moment) + allocator slack.
+    // Measured on the unchanged tree: 132 KiB whatever the limit, the chunk size and the
+    // announced length; a connection that buffers the body grows by the announced length.
+    let bound = limit as usize + 4096 + 2 * chunk + 160 * 1024;
+    out.count("streamed_oversized_runs", 1);
+    if std::env::var("VERIF_DEBUG").is_ok() {
+        eprintln!("[streamed-oversized] limit={} body={} chunk={} opcode={:#04x} peak={} bound={}", limit, body, chunk, opcode, peak, bound);
+    }
+    if peak > bound && std::env::var("VERIF_BOUND_OFF").is_err() {
+        viols.push(Violation::new(
+            "C10",
+            "connection-buffers-an-oversized-body",
+            format!("while a request of opcode {:#04x} announcing {} bytes (item size limit {}) arrived {} bytes at a time, the memory held for the connection grew by {} bytes (bound: limit + initial buffer + two chunks + 160 KiB = {})", opcode, body, limit, chunk, peak, bound),
+        ));
+    }
+    out.counters.insert("streamed_oversized_peak_last".into(), peak as u64);
+    out.fp = fp.0;
+    out.nontrivial = true;
+    (viols, out)
+}
+
 impl Check for C10 {
     fn id(&self) -> &'static str {
         "C10"
@@ -343,6 +418,17 @@ impl Check for C10 {
             return Case {
                 kind: "grid".into(),
                 data: json!({"opcode": index % 256, "limit": limit, "seed": run_seed}),
+            };
+        }
+        if (index - grid_runs) % 2000 == 7 {
+            let mut rng = Rng::sub(run_seed, "streamed-oversized");
+            let limit = *rng.pick(&[1024u32, 2048, 4096]);
+            let body = *rng.pick(&[512usize * 1024, 1024 * 1024, 2 * 1024 * 1024]) + rng.range(0, 999) as usize;
+            let chunk = *rng.pick(&[4096usize, 8192, 16384]);
+            let opcode = *rng.pick(&[op::SET, op::SET, op::APPEND, op::GET, op::NOOP, op::INCR, op::SETQ]);
+            return Case {
+                kind: "stream-oversized".into(),
+                data: json!({"limit": limit, "body": body, "chunk": chunk, "opcode": opcode, "seed": run_seed}),
             };
         }
         let (knobs, stream, cuts, keys) = gen_byzantine(run_seed, tier);
@@ -368,6 +454,12 @@ impl Check for C10 {
                 }
                 out.nontrivial = true;
                 out.count("ring_H_grid_runs", 1);
+            }
+            "stream-oversized" => {
+                let g = |k: &str| case.data[k].as_u64().unwrap_or(0);
+                let (viols, o) = run_streamed_oversized(g("limit") as u32, g("body") as usize, g("chunk") as usize, g("opcode") as u8, g("seed"));
+                out = o;
+                out.absorb(viols, &|v| v.prop == "C10");
             }
             "frame" => {
                 // one explicit frame on ring H (what a grid failure is reduced to)
